@@ -66,6 +66,7 @@ func writeEvidence(a *agg, base uint64, wall float64, reported, known, parallel,
 			"yield_sites":                    len(sites.Sites),
 			"sync_shims":                     sites.SyncShims,
 			"unsupported_constructs":         sites.Unsupported,
+			"option_fields_besides_parameters": optionFieldsNote(),
 			"dot_range_calls":                sites.RangeCalls,
 			"runs_per_hour":                  perHour(a.runs),
 			"process_seeds_per_hour":         perHour(a.procs),
@@ -149,4 +150,9 @@ func doSelftestDeterminism(base uint64, parallel int, pool []*c14sim.Key, eligib
 		return drv.ExitInconclusive
 	}
 	return 0
+}
+
+func optionFieldsNote() string {
+	fillable, skipped := c14sim.OptionFields()
+	return fmt.Sprintf("filled with generated values: %v; left zero: %v", fillable, skipped)
 }
